@@ -711,6 +711,11 @@ impl<'p> Evaluator<'_, 'p> {
             }
             ValueData::Number(n) => {
                 write!(result, "{n}").unwrap();
+                // TOML integers are 64-bit: an integral value beyond that range has
+                // to be written as a float to be accepted by TOML parsers.
+                if n.fract() == 0.0 && n.abs() >= 9223372036854775808.0 {
+                    result.push_str(".0");
+                }
             }
             ValueData::String(s) => {
                 escape_string_toml(&s, result);
